@@ -10,9 +10,9 @@ use crate::driver::{expected_obs, observe_response, RespObs};
 use crate::engine::{guarded, hex, show, unhex, Report, Tier, Violation};
 use crate::refmodel::head;
 
-pub const RULE: &str = "every head of the small-scope grammar: version {1.0,1.1} x status {101,200,204,299,301,302,304,307,399,404,500,999} x reason {none, empty, OK, 300-byte with obs-text} x all ordered field lists of length 0..=2 (thorough 0..=3) over a 9-entry pool (repeated names, no OWS, OWS both sides, empty value, obs-text, Location, Content-Length, Set-Cookie) plus heads with 0,1,127,128 (accepted) and 129,130,200 (rejected) fields; for every head EVERY prefix length and the head followed by {1 byte, garbage, a second response}; entry points Flow::try_response (GET flow, HEAD flow, POST flow with Expect: 100-continue whose caller gave up waiting), Call::try_response, parser::try_parse_response::<128>; each prefix on a fresh object AND all prefixes in growing order on one object followed by the complete head. distinct = distinct (head, entry point) pairs whose every prefix was checked";
+pub const RULE: &str = "every head of the small-scope grammar: version {1.0,1.1} x status {101,200,204,299,301,302,304,307,399,404,500,999} x reason {none, empty, OK, 300-byte with obs-text} x all ordered field lists of length 0..=2 (thorough 0..=3) over a 13-entry pool (repeated names, no OWS, OWS both sides, empty value, obs-text, Location, Content-Length, Set-Cookie, Transfer-Encoding: chunked, two Connection spellings) plus heads with 0,1,127,128 (accepted) and 129,130,200 (rejected) fields; for every head EVERY prefix length and the head followed by {1 byte, garbage, a second response}; entry points Flow::try_response (GET flow, HEAD flow, POST flow with Expect: 100-continue whose caller gave up waiting, and the same flow after try_read_100 took the same window as a refusal and the body was skipped), Call::try_response, parser::try_parse_response::<128>; each prefix on a fresh object AND all prefixes in growing order on one object followed by the complete head. distinct = distinct (head, entry point) pairs whose every prefix was checked";
 
-const FRONTS: [&str; 5] = ["flow-GET", "flow-HEAD", "call", "parser", "flow-POST-expect"];
+const FRONTS: [&str; 6] = ["flow-GET", "flow-HEAD", "call", "parser", "flow-POST-expect", "flow-POST-refused"];
 
 #[derive(Debug)]
 enum Out {
@@ -20,6 +20,8 @@ enum Out {
     Consumed(usize),
     Resp(usize, RespObs),
     Err(String),
+    /// the front does not apply to this window (the Expect handshake was not decided by it)
+    Skip,
 }
 
 fn call_front(front: &str, bases: &Bases, input: &[u8]) -> Result<(Out, bool), String> {
@@ -30,6 +32,26 @@ fn call_front(front: &str, bases: &Bases, input: &[u8]) -> Result<(Out, bool), S
                 "flow-GET" => bases.get.clone(),
                 "flow-HEAD" => bases.head.clone(),
                 _ => bases.post_expect.clone(),
+            };
+            let fp = f.verif_fingerprint();
+            match f.try_response(input) {
+                Ok((0, None)) => Ok((Out::NeedMore, !f.can_proceed() && f.verif_fingerprint() == fp)),
+                Ok((n, None)) => Ok((Out::Consumed(n), true)),
+                Ok((n, Some(r))) => Ok((Out::Resp(n, observe_response(&r)), f.can_proceed())),
+                Err(e) => Ok((Out::Err(format!("{:?}", e)), true)),
+            }
+        }
+        "flow-POST-refused" => {
+            // the same window is first shown to the Expect handshake; when that decides "refused"
+            // the flow moves on without sending the body and the window is offered to try_response
+            let mut a = bases.await100.clone();
+            if a.try_read_100(input).is_err() || a.can_keep_await_100() {
+                return Ok((Out::Skip, true));
+            }
+            let mut f = match a.proceed() {
+                Ok(ureq_proto::client::flow::Await100Result::RecvResponse(f)) => f,
+                Ok(_) => return Err("refused Expect handshake did not lead to RecvResponse".into()),
+                Err(e) => return Err(format!("Await100::proceed: {:?}", e)),
             };
             let fp = f.verif_fingerprint();
             match f.try_response(input) {
@@ -64,12 +86,24 @@ struct Bases {
     /// POST with Expect: 100-continue whose caller gave up waiting and sent the body: the flow
     /// still tolerates one late 100, every other head must be parsed exactly as anywhere else
     post_expect: ureq_proto::client::flow::Flow<(), ureq_proto::client::flow::state::RecvResponse>,
+    /// the same request still waiting for the 100
+    await100: ureq_proto::client::flow::Flow<(), ureq_proto::client::flow::state::Await100>,
 }
 
 fn bases() -> Bases {
     let pe = crate::driver::ReqCfg::new("POST", "1.1", "http://a.test/p").orig("content-length", "0").orig("expect", "100-continue");
-    Bases { get: recv_response_flow("GET"), head: recv_response_flow("HEAD"), call: recv_response_call("GET"), post_expect: super::flows::recv_response_flow_cfg(&pe).expect("post-expect flow") }
+    let await100 = {
+        let mut f = pe.build_prepare().expect("prepare").proceed();
+        crate::driver::write_whole_head(&mut f).expect("head");
+        match crate::driver::AnyFlow::SendRequest(f).proceed() {
+            Ok(Some(crate::driver::AnyFlow::Await100(a))) => a,
+            _ => panic!("harness: expected Await100"),
+        }
+    };
+    Bases { await100, get: recv_response_flow("GET"), head: recv_response_flow("HEAD"), call: recv_response_call("GET"), post_expect: super::flows::recv_response_flow_cfg(&pe).expect("post-expect flow") }
 }
+
+static REFUSED_CELLS: std::sync::atomic::AtomicU64 = std::sync::atomic::AtomicU64::new(0);
 
 fn err_variant(e: &str) -> String {
     e.split(|c: char| c == '(' || c == ' ').next().unwrap_or("").to_string()
@@ -87,11 +121,16 @@ fn check_cell(h: &[u8], nfields: usize, front: &str, bases: &Bases, p: usize, ta
         Ok(Err(e)) => return Some((format!("C05:harness:{}", front), e)),
         Err(pn) => return Some((format!("C05:panic:{}:{}", front, crate::engine::panic_site(&pn)), format!("{} on input {:?}", pn, show(&input[..input.len().min(60)])))),
     };
+    if matches!(out, Out::Skip) {
+        return None;
+    }
+    REFUSED_CELLS.fetch_add((front == "flow-POST-refused") as u64, std::sync::atomic::Ordering::Relaxed);
     if p < h.len() {
         if nfields > 128 {
             return None; // prefixes of over-limit heads are unconstrained
         }
         match out {
+            Out::Skip => None,
             Out::NeedMore => {
                 if !side_ok {
                     return Some((format!("C05:prefix-side-effect:{}", front), format!("strict prefix ({} of {} bytes): need-more-data returned but the state changed / became ready", p, h.len())));
@@ -312,6 +351,9 @@ pub fn run(tier: Tier) -> Report {
         rep.merge(p);
     }
     rep.guard("some head exceeds the field limit", false);
+    let refused = REFUSED_CELLS.load(std::sync::atomic::Ordering::Relaxed);
+    rep.guard("windows decided as refusal by the Expect handshake were offered to try_response", refused > 1000);
+    rep.extra("refused_front_cells", json!(refused));
     rep.extra("heads", json!(heads.len()));
     rep
 }
